@@ -680,7 +680,12 @@ class CellsImpl(*_cells_impl_base):
             self.altfunc = CellsBoundFunction(self)
 
     def on_namespace_change(self):
-        self.clear_all_values(clear_input=False)
+        if self.is_cached:
+            self.clear_all_values(clear_input=False)
+        else:
+            # Uncached cells hold no values, but values computed through
+            # them depend on the object node in the trace graph.
+            self.model.clear_obj(self)
 
     # ----------------------------------------------------------------------
     # repr methods
@@ -821,11 +826,6 @@ class CellsImpl(*_cells_impl_base):
             self.input_keys.remove(key)
 
     def clear_all_values(self, clear_input):
-        if not self.is_cached:
-            # Uncached cells hold no values, but values computed through
-            # them depend on the object node in the trace graph.
-            self.model.clear_obj(self)
-            return
         for key in list(self.data):
             self.clear_value_at(key, clear_input)
 
